@@ -1,1 +1,175 @@
-From Ont Require Import Model.OntId.
+(** C45 — Only an ONT ID's authorized keys, controllers or recovery can change it.
+
+    Model: Model/OntId.v (the 34 mutating methods of the native ONT ID contract, new-ONT-ID code
+    path), rule: Model/OntIdSpec.v ([required]: method -> authority, [holds]: what it means for a
+    signer set to carry it, [key_witness]: a signature address of the transaction belongs to a
+    stored, non-revoked key with authentication rights).  All theorems quantify over every
+    encodeID / VerifyID / AddressFromPubKey function, every start state where stated, every
+    history (list of events = signer set + call) and every identity. *)
+From Coq Require Import List Bool NArith.
+Import ListNotations.
+From Ont Require Import Model.OntId Model.OntIdSpec Proofs.OntId.
+Local Open Scope N_scope.
+
+Section C45.
+  Variables (id_ok id_valid : id -> bool) (addr_of : key -> addr).
+  Notation trace := (trace id_ok id_valid addr_of).
+  Notation run := (run id_ok id_valid addr_of).
+  Notation accepted := (accepted id_ok id_valid addr_of).
+  Notation authorized := (authorized id_valid addr_of).
+
+  (** 1. Nothing changes an identity without authority.  Along any history from any state, if the
+      record of identity [i] (flag, keys with their revoked / authentication flags, controller,
+      recovery, attributes) differs between two consecutive states, then the call in between was
+      addressed to [i], was accepted, and its signer set carried the authority the method
+      requires in the state before: a live authentication key of [i], or — for the
+      *ByController / *ByRecovery methods and addKey / removeKey / changeRecovery — its
+      controller, recovery group or recovery address as configured at that moment; for a
+      registration, the key being registered or the controller being installed, and [i] was
+      unregistered. *)
+  Theorem c45_change_needs_authority : forall (s : state) (h : list event) pre e post (i : id),
+    In (pre, e, post) (trace s h) -> post i <> pre i ->
+    target (e_op e) = i /\ accepted pre e /\ authorized pre (e_signers e) (e_op e).
+  Proof. intros s h. exact (change_authorized id_ok id_valid addr_of h s). Qed.
+
+  (** 2. Every accepted call (whether or not it changed anything) carried that authority. *)
+  Theorem c45_accepted_is_authorized : forall (s : state) (h : list event) pre e post,
+    In (pre, e, post) (trace s h) -> accepted pre e -> authorized pre (e_signers e) (e_op e).
+  Proof. intros s h pre e post _. apply accepted_authorized. Qed.
+
+  (** 3. A revoked identity can never be registered or modified again: from the moment its flag
+      is "revoked", its record is the same in every later state and every later call addressed
+      to it is refused; in a reachable state that record holds nothing but the flag. *)
+  Theorem c45_revoked_for_ever : forall (s : state) (h : list event) (i : id),
+    id_revoked s i ->
+    run s h i = s i /\
+    forall pre e post, In (pre, e, post) (trace s h) ->
+      pre i = s i /\ post i = s i /\ (target (e_op e) = i -> ~ accepted pre e).
+  Proof.
+    intros s h i Hr. split; [apply revoked_run; exact Hr|apply revoked_trace; exact Hr].
+  Qed.
+
+  Theorem c45_revoked_record_is_empty : forall (h : list event) (i : id),
+    id_revoked (run init_state h) i -> run init_state h i = revoked_rec.
+  Proof.
+    intros h i Hr.
+    destruct (inv_not_registered _ _ (inv_reachable id_ok id_valid addr_of h)
+                (revoked_not_registered _ _ Hr)) as [E|E]; [|exact E].
+    unfold id_revoked in Hr. rewrite E in Hr. discriminate Hr.
+  Qed.
+
+  (** 4. Key indices are stable and a revoked key stays revoked: in every state reachable from a
+      reachable state in which entry [n] of [i]'s key list is revoked, no entry of [i]'s key list
+      with the same key bytes is live (so it can never again be the witnessing key of [i]). *)
+  Theorem c45_revoked_key_for_ever : forall (h1 h2 : list event) (i : id) n p m q,
+    let s := run init_state h1 in
+    nth_error (r_keys (s i)) n = Some p -> pk_revoked p = true ->
+    nth_error (r_keys (run s h2 i)) m = Some q -> pk_key q = pk_key p -> pk_revoked q = true.
+  Proof.
+    intros h1 h2 i n p m q s. apply revoked_key_for_ever. apply inv_reachable.
+  Qed.
+
+  (** 5. Revoked or never registered identities carry no authority in reachable states: they
+      witness nothing, a call that needs the controller is refused when the controller is such
+      an identity, and a group all of whose identities are such is not witnessed (unless it is
+      satisfied by nobody's signature, see 6). *)
+  Theorem c45_dead_identity_no_authority : forall (h : list event) sg (j : id),
+    let s := run init_state h in
+    ~ registered s j ->
+    ~ key_witness addr_of s sg j /\
+    (forall o, r_ctrl (s (target o)) = Some (CSingle j) -> required o = AController ->
+               step id_ok id_valid addr_of s sg o = None) /\
+    (forall g, (forall x, In x (leaves g) -> ~ registered s x) -> vacuous g = false ->
+               ~ group_witnessed addr_of s sg g).
+  Proof.
+    intros h sg j s Hj. pose proof (inv_reachable id_ok id_valid addr_of h) as Hi.
+    split; [apply inv_no_witness; assumption|]. split.
+    - intros o Hc Hr. eapply dead_controller_refuses; eauto.
+    - intros g Hl Hv. apply dead_group_not_witnessed; assumption.
+  Qed.
+End C45.
+Print Assumptions c45_change_needs_authority.
+Print Assumptions c45_accepted_is_authorized.
+Print Assumptions c45_revoked_for_ever.
+Print Assumptions c45_revoked_record_is_empty.
+Print Assumptions c45_revoked_key_for_ever.
+Print Assumptions c45_dead_identity_no_authority.
+
+(** 6. The literal reading of the property — behind every accepted change stands at least one
+    witnessing key (of the identity, of its single controller, of an identity its controller /
+    recovery group mentions) or the recovery address — is FALSE of the code: group thresholds of
+    0 are accepted by group.go rDeserialize, and verifyThreshold is then met by an empty signer
+    list, so a transaction nobody signed is accepted (known finding
+    no-witness:zero-threshold-group; the driver replays the witness on the implementation). *)
+Definition c45_literal_statement : Prop :=
+  forall (id_ok id_valid : id -> bool) (addr_of : key -> addr) (h : list event) pre e post,
+    In (pre, e, post) (trace id_ok id_valid addr_of init_state h) ->
+    accepted id_ok id_valid addr_of pre e ->
+    has_witness id_valid addr_of pre (e_signers e) (target (e_op e)) (required (e_op e)).
+
+(** identity 1 registered with the controller "0 of no members" by an unsigned transaction *)
+Definition c45_witness_history : list event :=
+  [ mkEv [] (RegIdWithController 1 (mkCtrlArg 9 (Some (G [] 0))) (mkProof None (Some []))) ].
+
+Theorem c45_literal_refuted : ~ c45_literal_statement.
+Proof.
+  intro H.
+  specialize (H (fun _ => true) (fun i => i <? 5) (fun k => k) c45_witness_history).
+  cbn [c45_witness_history trace] in H.
+  specialize (H _ _ _ (or_introl eq_refl)).
+  assert (Ha : accepted (fun _ => true) (fun i => i <? 5) (fun k => k) init_state
+                 (mkEv [] (RegIdWithController 1 (mkCtrlArg 9 (Some (G [] 0))) (mkProof None (Some [])))))
+    by (vm_compute; discriminate).
+  specialize (H Ha). vm_compute in H. destruct H as [j [[] _]].
+Qed.
+Print Assumptions c45_literal_refuted.
+
+(** Outside the finding class (the group the authority rests on, if any, is not satisfied by
+    nobody) the literal reading holds, for all histories. *)
+Theorem c45_literal_partial :
+  forall (id_ok id_valid : id -> bool) (addr_of : key -> addr) (h : list event) pre e post,
+    In (pre, e, post) (trace id_ok id_valid addr_of init_state h) ->
+    accepted id_ok id_valid addr_of pre e ->
+    (forall g, authority_group id_valid pre (target (e_op e)) (required (e_op e)) = Some g ->
+               vacuous g = false) ->
+    has_witness id_valid addr_of pre (e_signers e) (target (e_op e)) (required (e_op e)).
+Proof.
+  intros id_ok id_valid addr_of h pre e post _ Ha Hv.
+  apply holds_has_witness; [|exact Hv]. apply (accepted_authorized id_ok id_valid addr_of). exact Ha.
+Qed.
+Print Assumptions c45_literal_partial.
+
+(** Non-vacuity: a concrete history in which identity 0 is registered by its key, gives itself a
+    second key, is used as controller to register and extend identity 1, revokes itself — after
+    which it cannot be registered again and identity 1 can no longer be changed through it.
+    Theorem 1 applies to the accepted steps (their records change), theorem 3 to the last ones. *)
+Definition c45_example_history : list event :=
+  [ mkEv [100] (RegIdWithPublicKey 0 (BKey 100));
+    mkEv [100] (AddKeyByIndex 0 (BKey 101) 1);
+    mkEv [101] (AddAttributesByIndex 0 (Some [(1, 1)]) 2);        (* refused: key #2 has no authentication rights *)
+    mkEv [100] (RegIdWithController 1 (mkCtrlArg 0 None) (mkProof (Some 1) None));
+    mkEv [100] (AddNewAuthKeyByController 1 (BKey 102) (mkProof (Some 1) None));
+    mkEv [999] (AddNewAuthKeyByController 1 (BKey 103) (mkProof (Some 1) None)); (* refused: not witnessed *)
+    mkEv [100] (RevokeID 0 1);
+    mkEv [100] (RegIdWithPublicKey 0 (BKey 100));                 (* refused: revoked for ever *)
+    mkEv [100] (AddNewAuthKeyByController 1 (BKey 103) (mkProof (Some 1) None)) ]. (* refused: controller revoked *)
+
+Example c45_nonvacuous :
+  let tr := trace (fun _ => true) (fun i => i <? 5) (fun k => k) init_state c45_example_history in
+  map (fun x => match step (fun _ => true) (fun i => i <? 5) (fun k => k)
+                           (fst (fst x)) (e_signers (snd (fst x))) (e_op (snd (fst x))) with
+                | Some _ => true | None => false end) tr
+  = [true; true; false; true; true; false; true; false; false] /\
+  (exists pre e post, In (pre, e, post) tr /\ post 1 <> pre 1 /\
+     key_witness (fun k => k) pre (e_signers e) 0) /\
+  id_revoked (run (fun _ => true) (fun i => i <? 5) (fun k => k) init_state c45_example_history) 0 /\
+  r_keys (run (fun _ => true) (fun i => i <? 5) (fun k => k) init_state c45_example_history 1)
+  = [mkPk 102 false false true].
+Proof.
+  cbv zeta. split; [vm_compute; reflexivity|]. split; [|split; vm_compute; reflexivity].
+  eexists _, _, _. split.
+  - cbn [c45_example_history trace]. do 4 right. left. reflexivity.
+  - split.
+    + vm_compute. discriminate.
+    + exists 0%nat, (mkPk 100 false true true). vm_compute. intuition.
+Qed.
